@@ -125,3 +125,54 @@ def u_rect(U):
 @unit('maxvol.maxvol_rect.no_upper_limit', props=('C08',))
 def u_rect_none(U):
     _rect_unit(U, True)
+
+
+def call_maxvol_rect(ex, st, args, kwargs, node):
+    A = st.deref(args[0])
+    if not (isinstance(A, VArr) and A.ndim == 2):
+        raise M.Unsupported('maxvol_rect of a non-matrix')
+    n, r = Z(A.shape[0]), Z(A.shape[1])
+    dr_min = Z(ex.need_num(st, args[2], node)) if len(args) > 2 else z3.IntVal(0)
+    dr_max = args[3] if len(args) > 3 else kwargs.get('dr_max', NONE)
+    if dr_max is NONE:
+        r_max = n
+    else:
+        r_max = r + Z(ex.need_num(st, dr_max, node))
+        r_max = z3.If(r_max <= n, r_max, n)
+    # precondition = "does not raise" (proved by the units maxvol.maxvol_rect*): consistent limits and a tall matrix
+    ex.oblige(st, 'call-pre', 'maxvol_rect: consistent limits (0 <= dr_min, r + dr_min <= min(n, r + dr_max)) and tall matrix',
+              z3.And(dr_min >= 0, r + dr_min <= r_max, n > r), node)
+    nI = ex.fresh_int('nrows')
+    st.assume(nI >= r + dr_min, nI <= r_max)
+    return VTuple([L.fresh_ivec(ex, st, nI, 0, n, 'Irect'), L.fresh_mat(ex, st, n, nI, 'Brect')])
+
+
+M.CALLEES['maxvol.maxvol_rect'] = call_maxvol_rect
+
+
+@unit('utils._maxvol', props=('C08', 'C05', 'C06'))
+def u_dispatch(U):
+    """Dispatch between the trivial case (n <= r), the square variant (no rows may be added) and the rectangular one; the
+    requested numbers of added rows are clipped so that the callee's limits are always consistent (never raises)."""
+    fn = U.func('utils', '_maxvol')
+    ex = U.executor(fn, axioms=T.axioms('shape'), lenient=True)
+    st = U.state()
+    A, a = S.mat_param('A')
+    n, r = T.rows(a), T.cols(a)
+    dr_min, dr_max = z3.Ints('dr_min dr_max')
+    st.vars.update(A=A, tau=z3.Real('tau'), dr_min=dr_min, dr_max=dr_max, tau0=z3.Real('tau0'), k0=z3.Int('k0'))
+    res = U.run(ex, st, pre=[n >= 1, r >= 1, dr_min >= 0, dr_max >= dr_min, st.vars['tau'] >= 1, st.vars['tau0'] >= 1, st.vars['k0'] >= 0])
+    U.cover('precondition-satisfiable', U.pre)
+    for p, o in res:
+        if o.kind != 'return':
+            U.post('never-raises-for-consistent-requests', p, False)
+            continue
+        I, B = [p.deref(x) for x in o.value.items]
+        nI = Z(I.shape[0])
+        cap = z3.If(n - r < dr_max, n - r, dr_max)
+        U.post('trivial-case-returns-all-rows', p, z3.Implies(n <= r, z3.And(nI == n, Z(B.shape[0]) == n, Z(B.shape[1]) == n)))
+        U.post('number-of-rows-between-r+dr_min-and-r+dr_max-clipped-to-n', p,
+               z3.Implies(n > r, z3.And(nI >= r + z3.If(dr_min < cap, dr_min, cap), nI <= r + cap, nI <= n)))
+        U.post('coefficient-matrix-has-one-column-per-row-number', p, z3.And(Z(B.shape[0]) == n, Z(B.shape[1]) == nI))
+        U.post('row-numbers-valid', p, valid_rows(I, n) if I.tag == 'ivec' and I.t is not None else False)
+    U.canary('canary-always-trivial', U.pre, n <= r)
